@@ -16,6 +16,16 @@
 //!   session resumes), `-par`, `-native` (`Endpoint::connect()` with tonic's own HttpConnector to a
 //!   recording loopback proxy in front of the server; URI host must be `ip`), `-cto` (a
 //!   connect_timeout is set, so the connector runs inside a TimeoutConnector).
+//!   A client may refer to EARLIER clients of the case (index from 0), which makes the case one
+//!   program in which configuration / endpoint VALUES are shared:
+//!   `<scheme> <urihost> ^j <ops…>` — the configuration is `cfg_j.clone().<ops>` (a clone of client
+//!   j's configuration value, as it was handed — by clone — to j's endpoint) instead of
+//!   `ClientTlsConfig::new().<ops>`; `<scheme> <urihost> @k` — the endpoint is `ep_k.clone()`,
+//!   connected as it is; `<scheme> <urihost> @k [^j] <ops…>` — `ep_k.clone().tls_config(<cfg>)`
+//!   (scheme and host tokens must be those of client k); `cfg - [^j] <ops…>` — only defines a
+//!   configuration value for later clients to clone (observed group `cfg-only`).  Sequentially
+//!   each client's configuration is derived right before it is used (so: used, then modified,
+//!   then used again); with `-par` all configurations and endpoints are built first.
 //! `<ops…>` is the sequence of `ClientTlsConfig` builder calls, in order (may be empty):
 //!   `ca:<ca1|ca2|ica1|junk|broken>`  `cas:<a>+<b>`  `ta:<ca>`  `tas:<a>+<b>` (trust anchors)
 //!   `dom:<good|bad|other|ip|invalid>`  `id:<c1|c2|c1chain|brokencert|nokey>`
@@ -301,7 +311,19 @@ impl<IO: ExtCerts + 'static> tower_service::Service<http::Request<tonic::body::B
 struct ClientSpec {
     scheme: String,
     urihost: String,
+    /// the client's own builder calls (after `@k` / `^j`)
     ops: Vec<String>,
+    /// `@k`: start from a clone of client k's endpoint value
+    ep_ref: Option<usize>,
+    /// `^j`: start from a clone of client j's configuration value
+    cfg_ref: Option<usize>,
+    /// `cfg - …`: defines a configuration only
+    cfg_only: bool,
+    /// bare `@k`: no `tls_config` call of its own
+    same: bool,
+    /// everything this client's configuration was told, syntactically (its ancestors' calls, then
+    /// its own) — used only to know which identity the client is meant to present
+    told: Vec<String>,
 }
 
 #[derive(Debug, Clone)]
@@ -325,6 +347,13 @@ struct Case {
     cto: bool,
 }
 
+impl ClientSpec {
+    /// does this client define a `ClientTlsConfig` value of its own?
+    fn has_cfg(&self) -> bool {
+        !self.same && !(self.ops.len() == 1 && (self.ops[0] == "notls" || self.ops[0] == "auto"))
+    }
+}
+
 fn parse(case: &str) -> Option<Case> {
     let t: Vec<&str> = case.split(' ').filter(|s| !s.is_empty()).collect();
     if t.len() < 8 || t[0] != "tls" {
@@ -334,16 +363,54 @@ fn parse(case: &str) -> Option<Case> {
     if semi < 3 || t.len() != semi + 5 {
         return None;
     }
-    let mut clients = Vec::new();
+    let mut clients: Vec<ClientSpec> = Vec::new();
     for part in t[1..semi].split(|x| *x == "|") {
-        if part.len() < 2 || !matches!(part[0], "https" | "http" | "HTTPS" | "https+ohttp" | "http+ohttps") {
+        if part.len() < 2 {
             return None;
         }
-        clients.push(ClientSpec {
-            scheme: part[0].into(),
-            urihost: part[1].into(),
-            ops: part[2..].iter().map(|s| s.to_string()).collect(),
-        });
+        let cfg_only = part[0] == "cfg";
+        if cfg_only {
+            if part[1] != "-" {
+                return None;
+            }
+        } else if !matches!(part[0], "https" | "http" | "HTTPS" | "https+ohttp" | "http+ohttps") {
+            return None;
+        }
+        let idx = clients.len();
+        let mut rest = &part[2..];
+        let mut ep_ref = None;
+        let mut cfg_ref = None;
+        if let Some(k) = rest.first().and_then(|x| x.strip_prefix('@')) {
+            let k: usize = k.parse().ok()?;
+            // a clone of an earlier client's endpoint, for the same URI
+            if cfg_only || k >= idx || clients[k].cfg_only || clients[k].scheme != part[0] || clients[k].urihost != part[1] {
+                return None;
+            }
+            ep_ref = Some(k);
+            rest = &rest[1..];
+        }
+        let same = ep_ref.is_some() && rest.is_empty();
+        if let Some(j) = rest.first().and_then(|x| x.strip_prefix('^')) {
+            let j: usize = j.parse().ok()?;
+            // a clone of an earlier client's configuration: that client must have defined one
+            if j >= idx || !clients[j].has_cfg() {
+                return None;
+            }
+            cfg_ref = Some(j);
+            rest = &rest[1..];
+        }
+        let ops: Vec<String> = rest.iter().map(|s| s.to_string()).collect();
+        let unconfigured = ops.len() == 1 && (ops[0] == "notls" || ops[0] == "auto");
+        if unconfigured && (ep_ref.is_some() || cfg_ref.is_some() || cfg_only) {
+            return None;
+        }
+        let mut told: Vec<String> = match (cfg_ref, ep_ref) {
+            (Some(j), _) => clients[j].told.clone(),
+            (None, Some(k)) if same => clients[k].told.clone(),
+            _ => Vec::new(),
+        };
+        told.extend(ops.iter().cloned());
+        clients.push(ClientSpec { scheme: part[0].into(), urihost: part[1].into(), ops, ep_ref, cfg_ref, cfg_only, same, told });
     }
     let mut tr = t[semi + 4].split('-');
     let base = tr.next()?.to_string();
@@ -361,7 +428,8 @@ fn parse(case: &str) -> Option<Case> {
             _ => return None,
         }
     }
-    if native && clients.iter().any(|c| c.urihost != "ip") {
+    // `-native`: every client talks to a recording proxy of its own, whose port is part of its URI
+    if native && clients.iter().any(|c| (!c.cfg_only && c.urihost != "ip") || c.ep_ref.is_some()) {
         return None;
     }
     Some(Case {
@@ -516,11 +584,9 @@ fn execute_tlsf(case: &str) -> String {
     }
 }
 
-fn build_client_cfg(ops: &[String]) -> Option<Option<ClientTlsConfig>> {
-    if ops.len() == 1 && (ops[0] == "notls" || ops[0] == "auto") {
-        return Some(None);
-    }
-    let mut cfg = ClientTlsConfig::new();
+/// `base.<ops>`: the builder calls in order, each consuming the value and returning the next.
+fn apply_client_ops(base: ClientTlsConfig, ops: &[String]) -> Option<ClientTlsConfig> {
+    let mut cfg = base;
     for op in ops {
         if let Some(n) = op.strip_prefix("ca:") {
             cfg = cfg.ca_certificate(Certificate::from_pem(cert_pem(n)?));
@@ -553,7 +619,7 @@ fn build_client_cfg(ops: &[String]) -> Option<Option<ClientTlsConfig>> {
             return None;
         }
     }
-    Some(Some(cfg))
+    Some(cfg)
 }
 
 fn rustls_server_config(c: &Case) -> Result<rustls::ServerConfig, String> {
@@ -810,8 +876,7 @@ struct ClientOut {
     dialed: bool,
 }
 
-/// One client: build the Endpoint through the public API, connect through a connector that dials
-/// the case's server and taps the bytes, make one unary call (twice over with `-x2`).
+/// How the clients of a case connect.
 #[derive(Clone, Copy)]
 struct Mode {
     lazy: bool,
@@ -877,65 +942,144 @@ async fn start_proxy<IO: Transport>(dial: Dialer<IO>, log: Arc<Mutex<TapLog>>, d
     Ok(port)
 }
 
-async fn run_client<IO: Transport>(idx: usize, spec: ClientSpec, dial: Dialer<IO>, mode: Mode) -> ClientOut {
-    let Mode { lazy, twice, native, cto } = mode;
-    let bad = |why: &str| ClientOut { cfg_state: "ok".into(), res: format!("fail:{}", why), plain: false, dialed: false };
+/// The VALUES the clients of a case have defined so far (by client index): the program state.
+/// A client that refers to an earlier one (`^j`, `@k`) clones the value stored here — it is the
+/// very value a clone of which was handed to `Endpoint::tls_config` / connected before.
+#[derive(Default)]
+struct Env {
+    cfgs: Vec<Option<ClientTlsConfig>>,
+    /// `Err` = the class of the configuration error the endpoint expression ended with
+    eps: Vec<Option<Result<Endpoint, String>>>,
+}
+
+/// A client whose configuration and endpoint have been built.
+struct Prepared {
+    log: Arc<Mutex<TapLog>>,
+    dials: Arc<AtomicUsize>,
+    cfg_state: String,
+    ep: Option<Endpoint>,
+    /// the case line does not describe a program (`fail:bad-case`)
+    bad: Option<String>,
+    cfg_only: bool,
+}
+
+/// Build client `idx`'s configuration and endpoint through the public API, from the values the
+/// earlier clients left in `env`, and leave its own there.
+async fn prepare_client<IO: Transport>(idx: usize, spec: &ClientSpec, env: &mut Env, dial: Dialer<IO>, mode: Mode) -> Prepared {
+    let Mode { native, cto, .. } = mode;
     let log = Arc::new(Mutex::new(TapLog::default()));
-    let wire = Wire { log: log.clone(), native };
     let dials = Arc::new(AtomicUsize::new(0));
-    let Some(host) = host_of(&spec.urihost) else { return bad("bad-case") };
-    // `<scheme>+o<scheme2>`: endpoint URI with <scheme>, plus `Endpoint::origin(<scheme2>://…)`
-    let (scheme, origin) = match spec.scheme.split_once("+o") {
-        Some((s, o)) => (s, Some(format!("{}://{}:50051", o, host))),
-        None => (spec.scheme.as_str(), None),
-    };
-    let port = if native {
-        match start_proxy::<IO>(dial.clone(), log.clone(), dials.clone()).await {
-            Ok(p) => p,
-            Err(_) => return bad("harness-error-proxy"),
-        }
-    } else {
-        50051
-    };
-    let uri = format!("{}://{}:{}", scheme, host, port);
-    let with_origin = move |ep: Endpoint| {
-        let ep = match &origin {
-            Some(o) => ep.origin(o.parse().unwrap()),
-            None => ep,
+    let mut out = Prepared { log: log.clone(), dials: dials.clone(), cfg_state: "ok".into(), ep: None, bad: None, cfg_only: spec.cfg_only };
+    debug_assert_eq!(env.cfgs.len(), idx);
+    // ---- the configuration value: ClientTlsConfig::new().<ops> or cfg_j.clone().<ops>
+    let cfg: Option<ClientTlsConfig> = if spec.has_cfg() {
+        let base = match spec.cfg_ref {
+            None => Some(ClientTlsConfig::new()),
+            Some(j) => env.cfgs.get(j).cloned().flatten(),
         };
-        if cto {
-            ep.connect_timeout(Duration::from_secs(10))
-        } else {
-            ep
-        }
-    };
-    let mut cfg_state = "ok".to_string();
-    let ep = if spec.ops.len() == 1 && spec.ops[0] == "auto" {
-        // the entry point generated `connect` functions use
-        match Endpoint::new(uri) {
-            Ok(e) => Some(with_origin(e)),
-            Err(e) => {
-                cfg_state = format!("err:{}", classify_cfg_err(&e));
-                None
+        match base.and_then(|b| apply_client_ops(b, &spec.ops)) {
+            Some(c) => Some(c),
+            None => {
+                env.cfgs.push(None);
+                env.eps.push(None);
+                out.bad = Some("bad-case".into());
+                return out;
             }
         }
     } else {
-        let ep = match Endpoint::from_shared(uri) {
-            Ok(e) => e,
-            Err(_) => return bad("bad-case"),
-        };
-        match build_client_cfg(&spec.ops) {
-            None => return bad("bad-case"),
-            Some(None) => Some(with_origin(ep)),
-            Some(Some(t)) => match ep.tls_config(t) {
-                Ok(e) => Some(with_origin(e)),
-                Err(e) => {
-                    cfg_state = format!("err:{}", classify_cfg_err(&e));
-                    None
-                }
+        None
+    };
+    env.cfgs.push(cfg.clone());
+    if spec.cfg_only {
+        env.eps.push(None);
+        return out;
+    }
+    let Some(host) = host_of(&spec.urihost) else {
+        env.eps.push(None);
+        out.bad = Some("bad-case".into());
+        return out;
+    };
+    // ---- the endpoint value
+    let ep: Result<Endpoint, String> = if let Some(k) = spec.ep_ref {
+        // ep_k.clone(), then possibly .tls_config(cfg.clone())
+        match env.eps.get(k).cloned().flatten() {
+            None => {
+                env.eps.push(None);
+                out.bad = Some("bad-case".into());
+                return out;
+            }
+            Some(Err(class)) => Err(class), // `ep_k?` already failed
+            Some(Ok(e)) => match &cfg {
+                None => Ok(e),
+                Some(t) => e.tls_config(t.clone()).map_err(|e| classify_cfg_err(&e)),
             },
         }
+    } else {
+        // `<scheme>+o<scheme2>`: endpoint URI with <scheme>, plus `Endpoint::origin(<scheme2>://…)`
+        let (scheme, origin) = match spec.scheme.split_once("+o") {
+            Some((s, o)) => (s, Some(format!("{}://{}:50051", o, host))),
+            None => (spec.scheme.as_str(), None),
+        };
+        let port = if native {
+            match start_proxy::<IO>(dial.clone(), log.clone(), dials.clone()).await {
+                Ok(p) => p,
+                Err(_) => {
+                    env.eps.push(None);
+                    out.bad = Some("harness-error-proxy".into());
+                    return out;
+                }
+            }
+        } else {
+            50051
+        };
+        let uri = format!("{}://{}:{}", scheme, host, port);
+        let with_origin = move |ep: Endpoint| {
+            let ep = match &origin {
+                Some(o) => ep.origin(o.parse().unwrap()),
+                None => ep,
+            };
+            if cto {
+                ep.connect_timeout(Duration::from_secs(10))
+            } else {
+                ep
+            }
+        };
+        if spec.ops.len() == 1 && spec.ops[0] == "auto" {
+            // the entry point generated `connect` functions use
+            Endpoint::new(uri).map(with_origin).map_err(|e| classify_cfg_err(&e))
+        } else {
+            let ep = match Endpoint::from_shared(uri) {
+                Ok(e) => e,
+                Err(_) => {
+                    env.eps.push(None);
+                    out.bad = Some("bad-case".into());
+                    return out;
+                }
+            };
+            match &cfg {
+                None => Ok(with_origin(ep)),
+                // Endpoint::tls_config consumes a configuration: it gets a clone, the value stays
+                Some(t) => ep.tls_config(t.clone()).map(with_origin).map_err(|e| classify_cfg_err(&e)),
+            }
+        }
     };
+    env.eps.push(Some(ep.clone()));
+    match ep {
+        Ok(e) => out.ep = Some(e),
+        Err(class) => out.cfg_state = format!("err:{}", class),
+    }
+    out
+}
+
+/// One prepared client: connect through a connector that dials the case's server and taps the
+/// bytes, make one unary call (twice over with `-x2`).
+async fn connect_client<IO: Transport>(idx: usize, prep: Prepared, dial: Dialer<IO>, mode: Mode) -> ClientOut {
+    let Mode { lazy, twice, native, .. } = mode;
+    let Prepared { log, dials, cfg_state, ep, bad, .. } = prep;
+    if let Some(why) = bad {
+        return ClientOut { cfg_state: "ok".into(), res: format!("fail:{}", why), plain: false, dialed: false };
+    }
+    let wire = Wire { log: log.clone(), native };
     let mut res = "fail:config".to_string();
     if let Some(ep) = ep {
         let rounds = if twice { 2 } else { 1 };
@@ -1019,7 +1163,7 @@ async fn run_case<IO: Transport>(c: Case) -> String {
         .iter()
         .map(|cl| {
             let mut p = Vec::new();
-            for op in &cl.ops {
+            for op in &cl.told {
                 if let Some(i) = op.strip_prefix("id:") {
                     p = cert_pem(i).map(ders).unwrap_or_default();
                 }
@@ -1098,26 +1242,41 @@ async fn run_case<IO: Transport>(c: Case) -> String {
 
     // ---- clients, one after the other or all at once, against the one server
     let mode = Mode { lazy: c.lazy, twice: c.twice, native: c.native, cto: c.cto };
-    let mut outs: Vec<ClientOut> = Vec::new();
+    let mut outs: Vec<Option<ClientOut>> = Vec::new();
+    let mut env = Env::default();
     if c.par {
-        let handles: Vec<_> = c
-            .clients
-            .iter()
-            .cloned()
+        // every configuration and endpoint first (in order), then all clients at once
+        let mut preps = Vec::new();
+        for (i, spec) in c.clients.iter().enumerate() {
+            preps.push(prepare_client::<IO>(i, spec, &mut env, dial.clone(), mode).await);
+        }
+        let handles: Vec<_> = preps
+            .into_iter()
             .enumerate()
-            .map(|(i, spec)| tokio::spawn(run_client::<IO>(i, spec, dial.clone(), mode)))
+            .map(|(i, prep)| if prep.cfg_only { None } else { Some(tokio::spawn(connect_client::<IO>(i, prep, dial.clone(), mode))) })
             .collect();
         for h in handles {
-            outs.push(match h.await {
-                Ok(o) => o,
-                Err(_) => ClientOut { cfg_state: "ok".into(), res: "fail:client-panicked".into(), plain: false, dialed: false },
+            outs.push(match h {
+                None => None,
+                Some(h) => Some(match h.await {
+                    Ok(o) => o,
+                    Err(_) => ClientOut { cfg_state: "ok".into(), res: "fail:client-panicked".into(), plain: false, dialed: false },
+                }),
             });
         }
     } else {
-        for (i, spec) in c.clients.iter().cloned().enumerate() {
-            outs.push(run_client::<IO>(i, spec, dial.clone(), mode).await);
+        // each client's configuration is derived, used for its endpoint, and the endpoint
+        // connected, before the next client's is derived
+        for (i, spec) in c.clients.iter().enumerate() {
+            let prep = prepare_client::<IO>(i, spec, &mut env, dial.clone(), mode).await;
+            if prep.cfg_only {
+                outs.push(None);
+            } else {
+                outs.push(Some(connect_client::<IO>(i, prep, dial.clone(), mode).await));
+            }
         }
     }
+    drop(env);
     // let the server finish whatever it is doing with these connections
     let _ = stop_tx.send(());
     drop(dial);
@@ -1126,6 +1285,10 @@ async fn run_case<IO: Transport>(c: Case) -> String {
     let runs = obs.runs.lock().unwrap();
     let mut parts = Vec::new();
     for (i, o) in outs.iter().enumerate() {
+        let Some(o) = o else {
+            parts.push("cfg-only".to_string());
+            continue;
+        };
         let mine: Vec<&String> = runs.iter().filter(|(j, _)| *j == i).map(|(_, s)| s).collect();
         let mut uniq: Vec<&String> = Vec::new();
         for m in &mine {
@@ -1378,6 +1541,31 @@ const CORPUS: &[&str] = &[
     "tls https good ca:ca1 id:c2 | https good ca:ca2 id:c1 | https good ca:ca1 id:c1 | http good notls | https bad ca:ca1 id:c1 | https good ca:ca1 id:c1chain ; s1good h2 ca:ca1+opt:1 duplex-par-x2",
     "tls https good ca:ca1 id:c2 | https good ca:ca1 id:c1 | https good notls | https good ca:ca1 ; s1good h2last ca:ca1 duplex-lazy-par",
     "tls https good ca:ca1 id:c1 ; s1good h2 ca:ca1 tcp-x2",
+    // ONE configuration value used for several endpoints (clones), and configurations derived from a
+    // used one: each endpoint decides by its own URI and its own builder sequence; what the value
+    // (or a relative of it) was used for before plays no part. First line = the Lean witness
+    // C15_config_use_has_no_memory_fails_with_shared_cache (seed C15d: clones share a connector cache)
+    "tls https good ca:ca1 | https bad ^0 ; s1good h2 - tcp",
+    "tls https bad ca:ca1 | https good ^0 ; s1good h2 - tcp",
+    "tls https good ca:ca1 | https good ^0 dom:bad ; s1good h2 - tcp",
+    "tls https bad ca:ca1 dom:good | https bad ^0 | https good ^0 dom:bad ; s1good h2 - duplex",
+    "tls cfg - ca:ca1 | https good ^0 | https bad ^0 | https good @1 ^0 h2:1 ; s1good h2 - duplex-par-x2",
+    "tls cfg - | https good ^0 ca:ca1 | https good ^0 ca:ca2 ; s1good h2 - tcp",
+    "tls cfg - dom:good | https bad ^0 ta:ca2 | https bad ^0 ta:ca1 | https bad ^1 ; s1good h2 - tcp-lazy",
+    "tls https good ca:ca1 h2:1 | https good ^0 h2:0 ; s1good none - duplex",
+    "tls https good ca:ca1 | https good ^0 h2:1 | https good ^0 ; s1good none - tcp",
+    "tls https good ca:ca1 id:c1 | https good ^0 id:c2 | https good @0 | https good @1 ^0 dom:bad | https good @0 dom:good ; s1good h2 ca:ca1 tcp",
+    "tls https good ca:ca1 id:c2 | https good ^0 id:c1chain | https good ^0 ; s1good h2 ca:ca1 duplex",
+    "tls https good ca:broken | https good @0 | https good @0 ca:ca1 | https good ^0 ; s1good h2 - tcp",
+    "tls https good ca:ca1 | https good @0 | https good @1 | https good @0 ^0 dom:bad | https good @3 ; s1good h2 - tcp-x2",
+    "tls https good ca:ca1 | https bad ^0 roots | https other ^1 dom:good ; s1good h2 - tcp",
+    "tls https good notls | https good @0 ca:ca1 | https good @1 dom:bad | http good notls | http good @3 ; s1good h2 - tcp",
+    "tls https good auto | https good @0 ca:ca1 | https bad auto | https bad ^1 ; s1good h2 - tcp",
+    "tls https ip ca:ca1 | https ip ^0 dom:bad | https ip ^0 ; s1ip h2 - tcp-native",
+    "tlsf n ca1 cfg - | https good ^0 nroots | https good ^0 ; s1good h2 - tcp",
+    "tlsf n ca1 https good nroots | https bad ^0 | https good ^0 dom:bad ; s1good h2 - duplex",
+    "tlsf n ca1 https good auto | https bad auto | https good @0 | https good @0 ca:ca2 ; s1good h2 - tcp",
+    "tlsf nw ca1 cfg - | https good ^0 wroots | https good ^0 nroots | https good ^2 dom:bad wroots ; s2good h2 - tcp",
     // tonic's own HttpConnector (Endpoint::connect / connect_lazy), connect_timeout set
     "tls https ip ca:ca1 ; s1ip h2 - tcp-native",
     "tls https ip notls ; s1ip plain - tcp-native",
@@ -1670,6 +1858,221 @@ fn side_cases(thorough: bool, rng: &mut Rng, out: &mut Vec<String>) {
     }
 }
 
+/// One configuration value for several endpoints; configurations derived from used ones;
+/// endpoint clones.  The client parts of one case, against a server presenting `servercert`.
+/// `n_ok` = a name the certificate is valid for, `n_bad` = one it is not valid for.
+fn shared_patterns(servercert: &str) -> Vec<String> {
+    let ca = issuer_of(servercert);
+    let other_ca = if ca == "ca1" { "ca2" } else { "ca1" };
+    let (n, w) = match servercert {
+        "s1bad" => ("other", "good"),
+        _ => ("good", "bad"),
+    };
+    let t = |x: &str| x.replace("CA2", other_ca).replace("CA", ca).replace('N', n).replace('W', w);
+    [
+        // one value (clones of it) for two or three endpoints with different URI hosts
+        "https N ca:CA | https W ^0",
+        "https W ca:CA | https N ^0",
+        "https N ca:CA | https W ^0 | https N ^0",
+        "cfg - ca:CA | https N ^0 | https W ^0",
+        "cfg - ca:CA | https W ^0 | https N ^0 | https W ^0",
+        // derived from a used one: another configured name
+        "https N ca:CA | https N ^0 dom:W",
+        "https N ca:CA dom:N | https N ^0 dom:W",
+        "https W ca:CA dom:N | https W ^0 | https N ^0 dom:W",
+        "https N ca:CA dom:W | https N ^0 dom:N | https N ^0",
+        "https N ca:CA | https W ^0 dom:N | https W ^1 | https N ^1 dom:W | https W ^0",
+        // different trust roots from one base
+        "cfg - | https N ^0 ca:CA | https N ^0 ca:CA2",
+        "cfg - | https N ^0 ca:CA2 | https N ^0 ca:CA",
+        "cfg - dom:N | https W ^0 ta:CA | https W ^0 cas:junk+CA2 | https W ^1 ta:CA2",
+        "https N ca:CA2 | https N ^0 ca:CA | https N ^0",
+        "https N | https N ^0 ta:CA | https N ^0 roots",
+        // different assume_http2
+        "https N ca:CA h2:1 | https N ^0 h2:0",
+        "https N ca:CA h2:0 | https N ^0 h2:1 | https N ^0",
+        "cfg - ca:CA | https N ^0 h2:1 | https N ^0 | https W ^1",
+        // endpoint values: the same endpoint again (clone), a clone re-configured, clones of clones
+        "https N ca:CA | https N @0 | https N @1",
+        "https N ca:CA | https N @0 ^0 dom:W | https N @1 | https N @0",
+        "https W ca:CA | https W @0 dom:N ca:CA | https W @0 ^0 dom:N | https W @0",
+        "https N notls | https N @0 ca:CA | https N @0 | https N @1 ^1 dom:W",
+        "https N ca:CA h2:1 | https N @0 ^0 h2:0 | https N @0",
+    ]
+    .iter()
+    .map(|x| t(x))
+    .collect()
+}
+
+/// Client identity differs between relatives (server asks for client certificates of CA 1).
+const SHARED_MTLS: [&str; 5] = [
+    "https good ca:ca1 id:c1 | https good ^0 id:c2",
+    "https good ca:ca1 id:c2 | https good ^0 id:c1 | https good ^0",
+    "cfg - ca:ca1 | https good ^0 id:c1chain | https good ^0 | https good ^0 id:c2",
+    "https good ca:ca1 id:c1 | https good @0 ^0 id:c2 | https good @0 | https good @1",
+    "https good ca:ca1 | https good ^0 id:c1 | https bad ^1 | https good ^0",
+];
+
+/// A random program of 2..=5 clients in which later clients clone / derive from the
+/// configurations and endpoints of earlier ones.
+fn random_program(rng: &mut Rng, servercert: &str) -> String {
+    const HOSTS: [&str; 5] = ["good", "good", "bad", "other", "ip"];
+    let n = rng.range(2, 5) as usize;
+    // (part text, has a configuration, is an endpoint, scheme, host)
+    let mut parts: Vec<(String, bool, bool, String, String)> = Vec::new();
+    for i in 0..n {
+        let with_cfg: Vec<usize> = (0..i).filter(|j| parts[*j].1).collect();
+        let with_ep: Vec<usize> = (0..i).filter(|j| parts[*j].2).collect();
+        // mostly relatives of earlier clients; now and then an unrelated fresh one
+        let cfg_ref = if !with_cfg.is_empty() && rng.chance(4, 5) { Some(*rng.pick(&with_cfg)) } else { None };
+        let ep_ref = if !with_ep.is_empty() && rng.chance(1, 5) { Some(*rng.pick(&with_ep)) } else { None };
+        if i > 0 && rng.chance(1, 14) && ep_ref.is_none() {
+            let host = *rng.pick(&HOSTS);
+            let (scheme, what) = *rng.pick(&[("https", "notls"), ("https", "auto"), ("http", "notls")]);
+            parts.push((format!("{} {} {}", scheme, host, what), false, true, scheme.into(), host.into()));
+            continue;
+        }
+        if let Some(k) = ep_ref {
+            if rng.chance(1, 2) {
+                let (sch, host) = (parts[k].3.clone(), parts[k].4.clone());
+                parts.push((format!("{} {} @{}", sch, host, k), false, true, sch, host));
+                continue;
+            }
+        }
+        let mut urihost: &'static str = *rng.pick(&HOSTS);
+        let mut ops: Vec<String> = match cfg_ref {
+            None => {
+                let aim_ok = rng.chance(2, 3);
+                random_ops(rng, servercert, aim_ok, &mut urihost)
+            }
+            Some(_) => (0..rng.below(4))
+                .map(|_| match rng.below(8) {
+                    0 | 1 | 2 => format!("dom:{}", rng.pick(&["good", "bad", "other", "ip"])),
+                    3 => format!("h2:{}", rng.below(2)),
+                    4 => format!("ca:{}", rng.pick(&["ca1", "ca2", "junk"])),
+                    5 => format!("id:{}", rng.pick(&["c1", "c2", "c1chain"])),
+                    _ => random_client_op(rng, false),
+                })
+                .collect(),
+        };
+        if cfg_ref.is_none() && ops.is_empty() && ep_ref.is_some() {
+            // `@k` followed by nothing is the bare clone; make it a tls_config call
+            ops.push(format!("ca:{}", issuer_of(servercert)));
+        }
+        let cfg_only = ep_ref.is_none() && rng.chance(1, if i == 0 { 4 } else { 8 });
+        let mut text = if cfg_only {
+            "cfg -".to_string()
+        } else if let Some(k) = ep_ref {
+            format!("{} {} @{}", parts[k].3, parts[k].4, k)
+        } else {
+            format!("https {}", urihost)
+        };
+        if let Some(j) = cfg_ref {
+            text.push_str(&format!(" ^{}", j));
+        }
+        for o in &ops {
+            text.push(' ');
+            text.push_str(o);
+        }
+        let (sch, host) = match ep_ref {
+            Some(k) => (parts[k].3.clone(), parts[k].4.clone()),
+            None => ("https".to_string(), urihost.to_string()),
+        };
+        parts.push((text, true, !cfg_only, sch, host));
+    }
+    if !parts.iter().any(|p| p.2) {
+        parts.push((format!("https good ^{}", 0), true, true, "https".into(), "good".into()));
+    }
+    parts.into_iter().map(|p| p.0).collect::<Vec<_>>().join(" | ")
+}
+
+fn shared_cases(thorough: bool, rng: &mut Rng, out: &mut Vec<String>) {
+    const SHARED_TR: [&str; 8] = ["tcp", "duplex", "tcp-lazy", "duplex-lazy", "duplex-par", "tcp-x2", "duplex-cto", "tcp-par-x2"];
+    for servercert in ["s1good", "s1bad", "s2good"] {
+        for clients in shared_patterns(servercert) {
+            for alpn in ["h2", "none", "h2last"] {
+                if thorough {
+                    for tr in SHARED_TR {
+                        out.push(format!("tls {} ; {} {} - {}", clients, servercert, alpn, tr));
+                    }
+                } else {
+                    // quick: the in-order runs on both transports for tonic's own acceptor, one drawn otherwise
+                    let trs: Vec<&str> = if alpn == "h2" { vec!["tcp", *rng.pick(&SHARED_TR[1..])] } else { vec![*rng.pick(&SHARED_TR)] };
+                    for tr in trs {
+                        out.push(format!("tls {} ; {} {} - {}", clients, servercert, alpn, tr));
+                    }
+                }
+            }
+        }
+    }
+    for clients in SHARED_MTLS {
+        for sops in ["ca:ca1", "ca:ca1+opt:1", "ca:ca2+ca:ca1"] {
+            for (alpn, tr) in [("h2", "tcp"), ("h2", "duplex-par"), ("h2first", "duplex"), ("h2", "tcp-x2")] {
+                out.push(format!("tls {} ; s1good {} {} {}", clients, alpn, sops, tr));
+            }
+        }
+    }
+    let nrand = if thorough { 30000 } else { 700 };
+    for _ in 0..nrand {
+        let servercert = *rng.pick(&SERVER_CERTS);
+        let clients = random_program(rng, servercert);
+        let alpn = if rng.chance(1, 30) { "plain" } else { *rng.pick(&ALPNS) };
+        let sops = *rng.pick(&["-", "-", "-", "ca:ca1", "ca:ca1+opt:1", "ca:ca2+opt:1", "opt:1"]);
+        let base = if thorough { *rng.pick(&["tcp", "duplex", "duplex", "duplex"]) } else { *rng.pick(&["tcp", "duplex"]) };
+        let mode = *rng.pick(&["", "", "", "-lazy", "-par", "-x2", "-par-x2", "-lazy-par", "-cto"]);
+        out.push(format!("tls {} ; {} {} {} {}{}", clients, servercert, alpn, sops, base, mode));
+    }
+    // the builds with root-store features: relatives that differ in `with_*_roots`
+    for feat in ["n", "nw"] {
+        let mut progs: Vec<(&str, &str, &str)> = vec![
+            // (store, clients, server certificate)
+            ("ca1", "cfg - | https good ^0 nroots | https good ^0", "s1good"),
+            ("ca1", "cfg - | https good ^0 | https good ^0 nroots", "s1good"),
+            ("ca1", "https good nroots | https bad ^0 | https good ^0 dom:bad", "s1good"),
+            ("ca1", "https good roots | https good ^0 dom:bad | https bad ^0", "s1good"),
+            ("ca1", "https good ca:ca2 | https good ^0 nroots | https good ^0", "s1good"),
+            ("ca1", "https good auto | https bad auto | https good @0 | https good @0 ca:ca2 | https good auto", "s1good"),
+            ("ca2", "https good roots h2:1 | https good ^0 h2:0 | https good @0", "s2good"),
+            ("empty", "cfg - ca:ca1 | https good ^0 | https good ^0 nroots | https good ^0", "s1good"),
+            ("ca1+ca2", "https good nroots | https good @0 ca:ca1 | https good @1 ^0 dom:bad", "s2good"),
+        ];
+        if feat == "nw" {
+            progs.extend([
+                ("ca1", "cfg - | https good ^0 wroots | https good ^0 nroots | https good ^2 dom:bad wroots", "s2good"),
+                ("ca1", "cfg - | https good ^0 nroots | https good ^0 wroots", "s2good"),
+                ("ca1", "https good wroots | https bad ^0 | https good ^0", "s2good"),
+                ("ca1", "https good | https good ^0 wroots | https good ^0 | https good ^1 dom:bad", "s2good"),
+            ]);
+        }
+        for (store, clients, servercert) in progs {
+            for alpn in ["h2", "none"] {
+                for tr in ["tcp", "duplex-lazy", "duplex-par"] {
+                    if !thorough && tr != "tcp" && !rng.chance(1, 2) {
+                        continue;
+                    }
+                    out.push(format!("tlsf {} {} {} ; {} {} - {}", feat, store, clients, servercert, alpn, tr));
+                }
+            }
+        }
+        let nside = if thorough { 1500 } else { 80 };
+        for _ in 0..nside {
+            let servercert = *rng.pick(&SERVER_CERTS);
+            let mut clients = random_program(rng, servercert);
+            // sprinkle the root-store methods over the builder calls
+            let extras: &[&str] = if feat == "nw" { &["nroots", "wroots", "roots"] } else { &["nroots", "roots"] };
+            let toks: Vec<String> = clients
+                .split(' ')
+                .map(|t| if (t.starts_with("ca:") || t.starts_with("ta:")) && rng.chance(1, 2) { rng.pick(extras).to_string() } else { t.to_string() })
+                .collect();
+            clients = toks.join(" ");
+            let store = *rng.pick(&["ca1", "ca2", "ca1+ca2", "ca1", "ca2", "empty"]);
+            let alpn = *rng.pick(&ALPNS);
+            let tr = *rng.pick(&["tcp", "duplex", "duplex-lazy", "duplex-par", "tcp-x2"]);
+            out.push(format!("tlsf {} {} {} ; {} {} - {}", feat, store, clients, servercert, alpn, tr));
+        }
+    }
+}
+
 pub fn generate(tier: &str, rng: &mut Rng) -> Vec<String> {
     let thorough = tier == "thorough";
     let mut out: Vec<String> = CORPUS.iter().map(|s| s.to_string()).collect();
@@ -1860,5 +2263,8 @@ pub fn generate(tier: &str, rng: &mut Rng) -> Vec<String> {
         }
         out.push(format!("srvcfg {}", if ops.is_empty() { "-".to_string() } else { ops.join("+") }));
     }
+
+    // one ClientTlsConfig value (clones, derived configurations) across several endpoints
+    shared_cases(thorough, rng, &mut out);
     out
 }
